@@ -472,4 +472,64 @@ theorem differentiableAt_log_gamma (y : Fin nC → ℝ) (hy : ∀ i, 0 < y i) (i
   exact (differentiableAt_gradGex wf hn y hy i).congr_of_eventuallyEq hev.symm
 
 end
+section wrapper
+variable {kind : Kind} {n nC nG : ℕ} {index : ℕ → ℕ} {cg : ℕ → ℕ → ℝ} {Qs Rs : ℕ → ℝ}
+  {inter : ℕ → ℕ → ℕ → ℝ} {T : ℝ}
+
+/-- the sub-vector of the members with groups, as a continuous linear map of the whole composition -/
+noncomputable def gatherL (n : ℕ) (index : ℕ → ℕ) (hidx : ∀ a, a < nC → index a < n) :
+    (Fin n → ℝ) →L[ℝ] (Fin nC → ℝ) :=
+  ContinuousLinearMap.pi fun a : Fin nC =>
+    ContinuousLinearMap.proj (R := ℝ) (φ := fun _ : Fin n => ℝ) (⟨index a, hidx a a.2⟩ : Fin n)
+
+theorem gatherL_apply (hidx : ∀ a, a < nC → index a < n) (z : Fin n → ℝ) (a : Fin nC) :
+    gatherL n index hidx z a = ext z (index a) := by
+  simp [gatherL, ext, hidx a a.2]
+
+/-- `ln γ_j` of the WRAPPER (`gamma_UNIFAC` / `gamma_modified_UNIFAC`) as a function of the whole
+composition vector `z` (members without groups included) -/
+noncomputable def lnGammaW (kind : Kind) (tb : Tables ℝ) (inter : ℕ → ℕ → ℕ → ℝ) (T : ℝ) (n : ℕ)
+    (z : Fin n → ℝ) (j : ℕ) : ℝ :=
+  Real.log (gammaFS kind tb inter (tabA n (ext z)) T j)
+
+variable (wf : WF nC nG cg Qs Rs) (hnC : 1 < nC) (hidx : ∀ a, a < nC → index a < n)
+  (hinj : ∀ a b, a < nC → b < nC → index a = index b → a = b)
+
+omit wf in
+/-- a position without groups: `ln γ = 0` whatever the composition -/
+theorem lnGammaW_nogroup (z : Fin n → ℝ) (j : ℕ) (h : ∀ a, a < nC → index a ≠ j) :
+    lnGammaW kind (build nC nG index cg Qs Rs) inter T n z j = 0 := by
+  unfold lnGammaW
+  rw [gammaFS_nogroup kind (build nC nG index cg Qs Rs) inter _ T j h, Real.log_one]
+
+include hnC hidx hinj in
+/-- a member with groups sees the kernels at the renormalised sub-composition -/
+theorem lnGammaW_group (z : Fin n → ℝ) (hz : ∀ a : Fin nC, 0 < gatherL n index hidx z a) (a : Fin nC) :
+    lnGammaW kind (build nC nG index cg Qs Rs) inter T n z (index a)
+      = Real.log (gammaSubS kind (build nC nG index cg Qs Rs) inter T (fracs (gatherL n index hidx z)) a) := by
+  set tb := build nC nG index cg Qs Rs with htb
+  have hsub : ∀ b, b < nC → xsubS tb (tabA n (ext z)) b = ext (gatherL n index hidx z) b := by
+    intro b hb
+    have : vget (tabA n (ext z)) (index b) = ext z (index b) := vget_tabA _ (hidx b hb)
+    simp only [xsubS, htb, build, this]
+    rw [← gatherL_apply hidx z ⟨b, hb⟩]; simp [ext, hb]
+  have hsum : xsumS tb (tabA n (ext z)) = ∑ c, gatherL n index hidx z c := by
+    unfold xsumS
+    rw [show tb.nC = nC from rfl, sumN_congr hsub]
+    have := sumN_ext (fun _ => (1:ℝ)) (gatherL n index hidx z)
+    simp only [one_mul] at this
+    rw [this, dot_one]
+  have hpos : 0 < ∑ c, gatherL n index hidx z c := by
+    have : Nonempty (Fin nC) := ⟨⟨0, by omega⟩⟩
+    exact Finset.sum_pos (fun c _ => hz c) Finset.univ_nonempty
+  unfold lnGammaW gammaFS
+  rw [show tb.nC = nC from rfl, show tb.index = index from rfl]
+  simp only [gt_iff_lt, hnC, if_true, hsum, isZero_false_of_ne hpos.ne', Bool.false_eq_true, if_false]
+  rw [scatterAt_hit index _ nC a a.2 hinj (fun _ _ => rfl)]
+  congr 1
+  apply gammaSubS_congr
+  intro b hb
+  rw [hsub b hb, fracs_eq]
+
+end wrapper
 end ThermoVerif.Unifac
